@@ -51,34 +51,53 @@ impl<'a> PathBuilder<'a> {
     }
 }
 
+/// Match the segments of a path against the segments of a route,
+/// returns the indexes of the optional params that are present in the path.
 fn match_path_segments(segments: &[&str], old_segments: &[PathSegment]) -> Option<HashSet<usize>> {
-    // This hurt my eyes
+    match_path_segments_from(segments, old_segments, 0)
+}
 
-    let mut optionals = HashSet::new();
+fn match_path_segments_from(
+    segments: &[&str],
+    old_segments: &[PathSegment],
+    index: usize,
+) -> Option<HashSet<usize>> {
+    let Some((next_seg, old_rest)) = old_segments.split_first() else {
+        // nothing left to match against: perfect match if the path is consumed too
+        return segments.is_empty().then(HashSet::new);
+    };
 
-    let mut segments_iter = old_segments.iter().enumerate();
-    'outer: for seg in segments {
-        'inner: loop {
-            let (index, next_seg) = segments_iter.next()?;
-
-            match next_seg {
-                PathSegment::Unit => continue 'inner,
-                PathSegment::Param(_) => continue 'outer,
-                PathSegment::OptionalParam(to_match) if to_match == seg => {
+    match next_seg {
+        PathSegment::Unit => match_path_segments_from(segments, old_rest, index + 1),
+        PathSegment::Static(to_match) if to_match.is_empty() => {
+            match_path_segments_from(segments, old_rest, index + 1)
+        }
+        PathSegment::Static(to_match) => match segments.split_first() {
+            Some((seg, rest)) if to_match == seg => {
+                match_path_segments_from(rest, old_rest, index + 1)
+            }
+            _ => None,
+        },
+        PathSegment::Param(_) => {
+            let (_, rest) = segments.split_first()?;
+            match_path_segments_from(rest, old_rest, index + 1)
+        }
+        PathSegment::OptionalParam(_) => {
+            // the param takes the next segment if the rest of the path still matches,
+            // otherwise it is absent.
+            let with_param = segments
+                .split_first()
+                .and_then(|(_, rest)| match_path_segments_from(rest, old_rest, index + 1));
+            match with_param {
+                Some(mut optionals) => {
                     optionals.insert(index);
-                    continue 'outer;
+                    Some(optionals)
                 }
-                PathSegment::OptionalParam(_) => continue 'inner,
-                PathSegment::Static(to_match) if to_match.is_empty() => continue 'inner,
-                PathSegment::Static(to_match) if to_match == seg => continue 'outer,
-                PathSegment::Static(_) => return None,
-                PathSegment::Splat(_) => return Some(optionals),
+                None => match_path_segments_from(segments, old_rest, index + 1),
             }
         }
+        PathSegment::Splat(_) => Some(HashSet::new()),
     }
-
-    // if iter is empty, perfect match !
-    segments_iter.next().is_none().then_some(optionals)
 }
 
 /// Non empty segments of a path
